@@ -705,3 +705,15 @@ Proof.
   rewrite (nth_indep _ 0 (G 0%nat)) by (rewrite map_length, seq_length; exact Hj).
   rewrite map_nth, seq_nth by exact Hj. reflexivity.
 Qed.
+
+(* _BoundaryFunction.grid_jacobian removes column sdim-axis-1 of the Jacobian of f: that column is
+   the derivative along kvs[axis], the direction normal to the side *)
+Lemma boundary_function_drops_normal_l : forall f us c axis, (axis < sdim f)%nat ->
+  length (g_jac f us c) = sdim f
+  /\ nth (length (g_jac f us c) - axis - 1) (g_jac f us c) 0 = g_dir f 1 us (unitv (sdim f) axis) c.
+Proof.
+  intros f us c axis Ha.
+  assert (L : length (g_jac f us c) = sdim f) by (unfold g_jac; rewrite map_length, rev_length, seq_length; reflexivity).
+  split; [exact L|]. rewrite L. rewrite jacobian_slot_order_l by lia.
+  replace (sdim f - 1 - (sdim f - axis - 1))%nat with axis by lia. reflexivity.
+Qed.
